@@ -59,6 +59,24 @@ def base_seed():
         return 1
 
 
+def safe_evaluate(mod, case):
+    """mod.evaluate(case); an exception that escapes the check AND was raised inside the code under test (a frame of the
+    cminx package, or of the repository's cmake/ directory) is a finding about that code, anything else a harness error."""
+    try:
+        return mod.evaluate(case)
+    except HarnessError:
+        raise
+    except Exception as e:  # noqa
+        tb = traceback.extract_tb(e.__traceback__)
+        inner = [fr for fr in tb if "/cminx/" in fr.filename and "/verif/" not in fr.filename]
+        if not inner:
+            raise
+        fr = inner[-1]
+        res = Result()
+        res.fail(f"exception-escaped-the-check:{type(e).__name__}:{fr.filename.split('/cminx/')[-1]}:{fr.name}", repr(e)[:300])
+        return res
+
+
 def derived_seed(prop_id, shard):
     return base_seed() * 1000003 + int(prop_id[1:]) * 1009 + shard
 
@@ -186,7 +204,7 @@ def run_campaign(mod, tier, shard, examples, col):
     @_settings(examples)
     @given(strat)
     def campaign(case):
-        col.record(case, mod.evaluate(case))
+        col.record(case, safe_evaluate(mod, case))
 
     campaign()
 
@@ -220,7 +238,7 @@ def _shrink_bucket(mod, col, strat, seed, examples, key):
     def hunt(case):
         if t_end[0] is not None and time.time() > t_end[0]:
             return
-        res = mod.evaluate(case)
+        res = safe_evaluate(mod, case)
         for k, detail in res.failures:
             if k == key and not col.is_known(k, case):
                 if t_end[0] is None:
@@ -294,7 +312,7 @@ def write_replay(mod, key, bucket):
 def replay_file(mod, path, col=None):
     payload = json.load(open(path, encoding="utf-8"))
     case = payload["case"] if "case" in payload else payload
-    res = mod.evaluate(case)
+    res = safe_evaluate(mod, case)
     return case, res
 
 
